@@ -38,6 +38,7 @@ import (
 	"math/bits"
 	"reflect"
 	"sort"
+	"strconv"
 	"strings"
 	"syscall"
 	"time"
@@ -136,77 +137,87 @@ func c04distinctPowers(x, m uint64) int {
 // ---- complete iterator state, for the visited set of (a) ----
 
 type c04state struct {
-	P, G, I, S, L uint64
-	Flags         uint32
-	Uniq          uint64 // non-zero when the state cannot be represented: never merged
+	P, G, I, S uint64 // the four fields sx's own tests read by name (section d needs them)
+	Flags      uint32 // bit k set: named field k (P,G,I,startI) missing or not a small non-negative integer
+	Key        string // canonical rendering of EVERY field of the iterator, whatever its name or type
 }
 
 var c04uniq uint64
 
+// c04stateOf reads the iterator's complete private state through reflection. Every field of the
+// struct, whatever it is called, goes into Key (integers of any representation by value, bools,
+// and for *big.Int the aliasing pattern between fields, which changes the future); a field of a
+// kind the harness cannot render makes the key unique, so the state is never merged with another,
+// which only costs time. A refactoring of names or representation must not break the harness.
 func c04stateOf(it *rangeIterator) c04state {
-	// The iterator's private fields are read by NAME through reflection, whatever integer
-	// representation they have (*big.Int, big.Int, uintN, intN): a refactoring of the representation
-	// must not break the harness. A field that is missing or not an integer makes the state
-	// "unique" (never merged with another), which only costs time.
 	var st c04state
 	v := reflect.ValueOf(it).Elem()
-	ptrOf := map[string]uintptr{}
-	get := func(name string, bit uint32) uint64 {
-		f := v.FieldByName(name)
-		bad := func() uint64 {
-			st.Flags |= bit
-			c04uniq++
-			st.Uniq = c04uniq
-			return 0
-		}
-		if !f.IsValid() {
-			return bad()
-		}
+	t := v.Type()
+	var key []byte
+	ptrs := map[uintptr]int{}
+	named := map[string]*uint64{"P": &st.P, "G": &st.G, "I": &st.I, "startI": &st.S}
+	bits := map[string]uint32{"P": 1, "G": 2, "I": 4, "startI": 8}
+	seenNamed := uint32(0)
+	for i := 0; i < v.NumField(); i++ {
+		f := v.Field(i)
+		name := t.Field(i).Name
 		f = reflect.NewAt(f.Type(), unsafe.Pointer(f.UnsafeAddr())).Elem()
+		var val uint64
+		small := false
+		key = append(key, byte('A'+i), '=')
 		switch x := f.Interface().(type) {
 		case *big.Int:
-			if x == nil || !x.IsUint64() {
-				return bad()
+			if x == nil {
+				key = append(key, "nil"...)
+			} else {
+				key = append(key, x.Text(16)...)
+				pp := reflect.ValueOf(x).Pointer()
+				if j, ok := ptrs[pp]; ok {
+					key = append(key, '@', byte('A'+j))
+				} else {
+					ptrs[pp] = i
+				}
+				if x.IsUint64() {
+					val, small = x.Uint64(), true
+				}
 			}
-			ptrOf[name] = reflect.ValueOf(x).Pointer()
-			return x.Uint64()
 		case big.Int:
-			if !x.IsUint64() {
-				return bad()
+			key = append(key, x.Text(16)...)
+			if x.IsUint64() {
+				val, small = x.Uint64(), true
 			}
-			return x.Uint64()
-		}
-		switch f.Kind() {
-		case reflect.Uint, reflect.Uint8, reflect.Uint16, reflect.Uint32, reflect.Uint64, reflect.Uintptr:
-			return f.Uint()
-		case reflect.Int, reflect.Int8, reflect.Int16, reflect.Int32, reflect.Int64:
-			if f.Int() < 0 {
-				return bad()
+		default:
+			switch f.Kind() {
+			case reflect.Bool:
+				if f.Bool() {
+					key = append(key, 't')
+				} else {
+					key = append(key, 'f')
+				}
+			case reflect.Uint, reflect.Uint8, reflect.Uint16, reflect.Uint32, reflect.Uint64, reflect.Uintptr:
+				key = strconv.AppendUint(key, f.Uint(), 16)
+				val, small = f.Uint(), true
+			case reflect.Int, reflect.Int8, reflect.Int16, reflect.Int32, reflect.Int64:
+				key = strconv.AppendInt(key, f.Int(), 16)
+				if f.Int() >= 0 {
+					val, small = uint64(f.Int()), true
+				}
+			default:
+				c04uniq++
+				key = append(key, '?')
+				key = strconv.AppendUint(key, c04uniq, 16)
 			}
-			return uint64(f.Int())
 		}
-		return bad()
-	}
-	st.P, st.G, st.I, st.S, st.L = get("P", 1), get("G", 2), get("I", 4), get("startI", 8), get("rangeLimit", 16)
-	if f := v.FieldByName("stop"); f.IsValid() && f.Kind() == reflect.Bool {
-		if f.Bool() {
-			st.Flags |= 32
-		}
-	} else {
-		c04uniq++
-		st.Uniq = c04uniq
-	}
-	// aliasing between the big.Int fields is part of the state (a shared pointer changes the future)
-	names := []string{"P", "G", "I", "startI", "rangeLimit"}
-	bit := uint32(64)
-	for i := 0; i < len(names); i++ {
-		for j := i + 1; j < len(names); j++ {
-			if a, ok := ptrOf[names[i]]; ok && a == ptrOf[names[j]] {
-				st.Flags |= bit
+		key = append(key, ';')
+		if dst, ok := named[name]; ok {
+			if small {
+				*dst = val
+				seenNamed |= bits[name]
 			}
-			bit <<= 1
 		}
 	}
+	st.Flags = 15 &^ seenNamed
+	st.Key = string(key)
 	return st
 }
 
